@@ -232,6 +232,10 @@ def build_group(osy, case):
     else:
         dg["position"] = osy.Vector(c[:, 0].copy(), c[:, 1].copy(), unit=unit)
     dg["dx"] = osy.Array(s, unit=unit)
+    if case.get("size_unit"):
+        # the cell sizes stored in another length unit than the positions (same physical sizes)
+        f = float((1.0 * osy.units(unit)).to(case["size_unit"]).magnitude)
+        dg["dx"] = osy.Array(s * f, unit=case["size_unit"])
     have_vel = False
     for lay in case["layers"]:
         if lay["kind"] == "scalar":
@@ -721,7 +725,7 @@ def describe(case):
     d = case["direction"]
     dirs = d.get("s") or ("Vector" + str(tuple(d.get("v", []))))
     win = " ".join(f"{k}={case[k]['v']} {case[k]['unit']}" for k in ("dx", "dy", "dz") if case.get(k) is not None) or "dx omitted"
-    return (f"{case['ndim']}-D mesh of {len(case['sizes'])} cells ({case['mesh_info']}), direction {dirs!r}, origin {case.get('origin')}, "
+    return (f"{case['ndim']}-D mesh of {len(case['sizes'])} cells ({case['mesh_info']}), direction {dirs!r}, origin {case.get('origin')}{(' ' + case['origin_unit']) if case.get('origin_unit') else ''}, "
             f"{win}, resolution {case['res']}, operation {case.get('op') or 'sum'}, layers {[l['key'] + ('(operation=' + l['op'] + ')' if l.get('op') else '') for l in case['layers']]}")
 
 
